@@ -19,7 +19,7 @@ fn mask(k: usize) -> usize {
 //              (i.e. len is the longest published prefix; with B, every slot below len is initialised
 //              => nothing is observed before it is fully written).  All 2^64 bitmaps.
 pub fn c05_len_body(read: usize, write: usize, i: usize) {
-    let block: Block<u8> = Block::new();
+    let block = mem::ManuallyDrop::new(Block::<u8>::new()); // never run Drop on a panic path: it spins on a non-quiescent block
     block.read.store(read, Ordering::SeqCst);
     block.write.store(write, Ordering::SeqCst); // len must not depend on write
     let len = block.len();
@@ -41,7 +41,6 @@ pub fn c05_len_body(read: usize, write: usize, i: usize) {
     kani::cover!(len == BLOCK_SIZE);
     kani::cover!(len == 0 && read != 0);
     kani::cover!(len == 17 && read > mask(17));
-    mem::forget(block);
 }
 #[cfg(kani)]
 #[kani::proof]
@@ -56,7 +55,7 @@ fn c05_len() {
 pub fn c05_is_quiesced_body(write: usize, read: usize) {
     let m = min(write, BLOCK_SIZE);
     kani::assume(read & !mask(m) == 0); // B
-    let block: Block<u8> = Block::new();
+    let block = mem::ManuallyDrop::new(Block::<u8>::new()); // never run Drop on a panic path: it spins on a non-quiescent block
     block.write.store(write, Ordering::SeqCst);
     block.read.store(read, Ordering::SeqCst);
     let q = block.is_quiesced();
@@ -72,7 +71,6 @@ pub fn c05_is_quiesced_body(write: usize, read: usize) {
     kani::cover!(q && write == 0);
     kani::cover!(!q && write == 3 && read == 0b101);
     kani::cover!(!q && write > BLOCK_SIZE && read == usize::MAX >> 1);
-    mem::forget(block);
 }
 #[cfg(kani)]
 #[kani::proof]
@@ -133,7 +131,7 @@ fn make_quiescent(block: &Block<Tok>, k: usize, base: u8) {
 pub fn c05_push_step_body(k: usize, base: u8, value: u8, j: usize) {
     kani::assume(k <= BLOCK_SIZE);
     reset_drops();
-    let block: Block<Tok> = Block::new();
+    let block = mem::ManuallyDrop::new(Block::<Tok>::new());
     make_quiescent(&block, k, base);
     assert!(block.is_quiesced() && block.len() == k);
     let r = block.push(Tok(value));
@@ -170,7 +168,6 @@ pub fn c05_push_step_body(k: usize, base: u8, value: u8, j: usize) {
     kani::cover!(k == 0);
     kani::cover!(k == BLOCK_SIZE - 1 && j == 5);
     kani::cover!(k == BLOCK_SIZE);
-    mem::forget(block);
 }
 #[cfg(kani)]
 #[kani::proof]
@@ -186,7 +183,7 @@ pub fn c05_data_push_order_body(n: u8, a: u8, b: u8, c: u8) {
     kani::assume(n <= 3);
     reset_drops();
     let vals = [a, b, c];
-    let block: Block<Tok> = Block::new();
+    let block = mem::ManuallyDrop::new(Block::<Tok>::new());
     assert!(block.len() == 0 && block.is_quiesced() && block.data().is_empty());
     let mut i = 0usize;
     while i < n as usize {
@@ -204,7 +201,6 @@ pub fn c05_data_push_order_body(n: u8, a: u8, b: u8, c: u8) {
     assert!(unsafe { DROP_TOTAL } == 0);
     kani::cover!(n == 3 && a == b);
     kani::cover!(n == 0);
-    mem::forget(block);
 }
 #[cfg(kani)]
 #[kani::proof]
@@ -218,9 +214,11 @@ fn c05_data_push_order() {
 // each exactly once, and no slot at or above k is touched (never-written slots hold no value).
 fn drop_from_quiescent(k: usize, j: u8) {
     reset_drops();
-    let block: Block<Tok> = Block::new();
+    let block = mem::ManuallyDrop::new(Block::<Tok>::new());
+    let mut block = block;
     make_quiescent(&block, k, 0); // token ids are the slot indices
-    drop(block);
+    assert!(block.is_quiesced()); // otherwise Drop would spin forever
+    unsafe { mem::ManuallyDrop::drop(&mut block) };
     assert!(unsafe { DROP_TOTAL } as usize == k);
     assert!(!unsafe { DUP }); // nothing dropped twice
     assert!(unsafe { SEEN } == mask(k) as u64); // slot j dropped iff j < k
@@ -279,7 +277,7 @@ pub fn c05_push_then_drop_body(n: u8, a: u8, b: u8, c: u8) {
     kani::assume(a != b && b != c && a != c);
     reset_drops();
     let vals = [a, b, c];
-    let block: Block<Tok> = Block::new();
+    let block = mem::ManuallyDrop::new(Block::<Tok>::new());
     let mut expect = 0u64;
     let mut i = 0usize;
     while i < n as usize {
@@ -288,7 +286,9 @@ pub fn c05_push_then_drop_body(n: u8, a: u8, b: u8, c: u8) {
         i += 1;
     }
     assert!(unsafe { DROP_TOTAL } == 0);
-    drop(block);
+    assert!(block.is_quiesced()); // otherwise Drop would spin forever
+    let mut block = block;
+    unsafe { mem::ManuallyDrop::drop(&mut block) };
     assert!(unsafe { DROP_TOTAL } == n as u32);
     assert!(unsafe { SEEN } == expect && !unsafe { DUP });
     kani::cover!(n == 3);
@@ -365,7 +365,7 @@ mod rg {
         let value: u8 = kani::any();
         let other: usize = kani::any();
         kani::assume(other < BLOCK_SIZE);
-        let block: Block<Tok> = Block::new();
+        let block = mem::ManuallyDrop::new(Block::<Tok>::new());
         // fill every slot with a sentinel different from the value, so a write is observable
         let sentinel = !value;
         let mut i = 0;
@@ -411,6 +411,5 @@ mod rg {
         kani::cover!(idx == BLOCK_SIZE);
         kani::cover!(idx == usize::MAX);
         kani::cover!(idx == 0 && other == 1);
-        mem::forget(block);
-    }
+        }
 }
